@@ -49,3 +49,18 @@ package transports
 //@   assigns nothing
 //@ func (r Registration) TransportParams() any
 //@   assigns nothing
+
+// ---------------- C01: seeded destination port ----------------
+// Published algorithm (every transport, station and client): the port is min + a draw in [0, max-min) taken from the
+// HKDF stream of the ConjureSeed with info "phantom-select-dst-port" (no salt); so it lies in [min, max) and the
+// modulus of the draw is exactly max-min.
+//@ import big "math/big"
+//@ func PortSelectorRange(min int64, max int64, seed []byte) (uint16, error)
+//@   requires 0 <= min && min < max && max <= 65536
+//@   atcall hkdf.New before: assert @C01: arg1 == seed && len(arg2) == 0 && string(arg3) == "phantom-select-dst-port"
+//@   atcall rand.Int before: assert @C01: bigval(arg1) == max - min
+//@   atcall rand.Int after: snap draw := bigval(res0)
+//@   atcall rand.Int after: snap drawErr := res1
+// (a failing draw - impossible for an HKDF reader asked for a few bytes - is answered with port 0 and a nil error by
+// the code; the clause is about successful draws)
+//@   ensures @C01: result1 == nil && defined(draw) && drawErr == nil ==> min <= result0 && result0 < max && result0 == min + draw
